@@ -25,7 +25,7 @@ def configs(tier):
         "both55": dict(mixup_p=0.5, cutmix_p=0.5, mixup_alpha=0.8, cutmix_alpha=1.0),
         "both28": dict(mixup_p=0.2, cutmix_p=0.8, mixup_alpha=0.8, cutmix_alpha=1.0),
     }
-    shapes = [(2, 2), (6, 5)] if tier == "quick" else [(2, 2), (6, 5), (3, 4), (4, 3), (1, 5), (4, 4), (5, 8)]
+    shapes = [(2, 2), (6, 5)] if tier == "quick" else [(2, 2), (6, 5), (3, 4), (1, 5), (5, 8)]
     out = []
     for B in (1, 2, 3, 4):
         for hw in shapes:
@@ -277,7 +277,7 @@ def mae_task(_):
 def run(run):
     cfgs = configs(run.tier)
     max_dev = 2 if run.tier == "quick" else 3
-    cap = 4000 if run.tier == "quick" else 12000
+    cap = 4000 if run.tier == "quick" else 6000
     k = run.seed % 7
     cfgs = cfgs[k:] + cfgs[:k]
     chunk = 12
